@@ -11,3 +11,21 @@ func c20parse(src string) (evs []c20ev) {
 	p.ParseFile(context.Background(), &s)
 	return
 }
+
+func c20parseAfter(prev, src string) (evs []c20ev) {
+	on := false
+	l := func(t NodeType, offset, endoffset int) {
+		if on {
+			evs = append(evs, c20ev{int(t), offset, endoffset})
+		}
+	}
+	var s TokenStream
+	var p Parser
+	p.Init(func(err SyntaxError) bool { return true }, l)
+	s.Init(prev, l)
+	p.ParseFile(context.Background(), &s)
+	on = true
+	s.Init(src, l)
+	p.ParseFile(context.Background(), &s)
+	return
+}
